@@ -1176,6 +1176,8 @@ WITNESSES = [
     ("parse_email_message/ensures#subject", _w(lambda: check_subjects("mbox"))),
     ("parse_email_message/ensures#message_id", w_folded_ids),
     ("parse_email_message/ensures#in_reply_to", w_folded_ids),
+    ("_HTML_HINT_RE", lambda: w_html_hint()),
+    ("_looks_like_html", lambda: w_html_hint()),
 ]
 def w_folded_address_headers():
     r = check_address_unfolding() or check_eml_names_unfolded()
@@ -1208,7 +1210,38 @@ def w_attached_message_leak():
     return got != want, {"message": raw.decode("latin-1")}, want, got
 
 
-KNOWN = {"C16-attached-message-body-leak": w_attached_message_leak, "F21-mbox-no-attachments": w_mbox_attachments, "C16-folded-address-headers": w_folded_address_headers,
+def w_html_hint():
+    """An Outlook HTML body is a fragment whose tags carry attributes (`<div class="WordSection1"><p class="MsoNormal">..`): read
+    through read_msg_format_mail (stub MsOxMessage over a real .msg file, as check_msg_mapping) it must come back as the HTML body,
+    the plain body being its text.  Falls back to the helper alone when the fixture is missing."""
+    from sharepoint2text.parsing.extractors.mail import msg_email_extractor as msg
+    body = '<div class="WordSection1"><p class="MsoNormal">Hello Bob,</p><p class="MsoNormal">see you <span style="color:red">tomorrow</span>.</p></div>'
+    want = {"body_html": body, "markup in body_plain": False}
+    p = os.path.join(REPO, "sharepoint2text/tests/resources/mails/basic_email.msg")
+    if not os.path.exists(p) or not hasattr(msg, "MsOxMessage"):
+        fn = getattr(msg, "_looks_like_html", None)
+        if fn is None:
+            return False, {}, "", ""
+        got = fn(body)
+        return got is not True, {"_looks_like_html": body}, True, got
+
+    class Stub:
+        def __init__(self, stream):
+            self.subject, self.message_id, self.sent_date = "s", "<mid@x.org>", "Mon, 01 Jan 2024 10:00:00 +0200"
+            self.sender, self.to, self.cc, self.bcc, self.reply_to = "S <s@x.org>", "A <a@x.org>", "", "", ""
+            self.body = body
+    real = msg.MsOxMessage
+    msg.MsOxMessage = Stub
+    try:
+        res = list(msg.read_msg_format_mail(io.BytesIO(open(p, "rb").read())))
+    finally:
+        msg.MsOxMessage = real
+    r = res[0]
+    got = {"body_html": r.body_html, "markup in body_plain": "<p" in r.body_plain or "<div" in r.body_plain}
+    return got != want, {"stub MsOxMessage over basic_email.msg, body": body}, want, dict(got, body_plain=r.body_plain)
+
+
+KNOWN = {"C16-msg-html-fragment-not-recognised": w_html_hint, "C16-attached-message-body-leak": w_attached_message_leak, "F21-mbox-no-attachments": w_mbox_attachments, "C16-folded-address-headers": w_folded_address_headers,
          "C16-standard-mime-types-missing": w_missing_standard_types}
 RECORDED_SHAPES = ("folded-quoted-names",)       # legacy variants that only restate a recorded finding
 
